@@ -182,6 +182,37 @@ def with_steps(c):
     return c
 
 
+def run_impl(ctx, binary, cases):
+    """Run the harness; a panic in one of the engine's background goroutines (e.g. the keyless index iterator) kills the
+    process and cannot be caught by the harness kernel.  The case being executed then gets the observation {"panic": ...}
+    (which no model agrees with and the oracle rejects) and the remaining cases run in a fresh process."""
+    import json as _json
+    from lib import vlib as _v
+    outs = []
+    start = 0
+    crashes = 0
+    while start < len(cases):
+        inp = "".join(_json.dumps(c, separators=(",", ":")) + "\n" for c in cases[start:])
+        rc, o, e = _v.sh([binary, HARNESS_RUNNER], inp=inp, timeout=1800)
+        got = []
+        for line in o.splitlines():
+            line = line.strip()
+            if line.startswith("{"):
+                try:
+                    got.append(_json.loads(line))
+                except ValueError:
+                    break
+        outs.extend(got)
+        start += len(got)
+        if start < len(cases):
+            crashes += 1
+            if crashes > 25:
+                raise _v.HarnessError("harness keeps dying: rc=%s\n%s" % (rc, e[-2000:]))
+            outs.append({"i": start, "panic": "harness process died (rc=%s) while running this case:\n%s" % (rc, e[:1500])})
+            start += 1
+    return outs
+
+
 def litval(s):
     if s == "NULL":
         return None
